@@ -446,6 +446,37 @@ theorem top_flow_shape :
       "1|return (None, None, None)"] :=
   ⟨rfl, rfl⟩
 
+/-- **nothing between the measurement and the CSV edits the result arrays.** `measure_membrane_thickness` hands
+`thickness_results`, `valid_mask`, `point_pairs` (and points / masks) to `generate_matching_statistics` BEFORE it stores them
+into the output columns (`top_flow_shape`), and to `generate_thickness_volume` afterwards. For these helpers (and the two
+writers next to them) the translator lists every statement that may modify a parameter — or a local that may be a view of one —
+in place: subscript / attribute stores, augmented assignments, `del`, `out=`, mutating methods, in-place numpy routines,
+handing the array on to another non-builtin function. The list is empty: what is written to the CSV is what the measurement
+returned. (A syntactic obligation: aliasing through containers or `globals()` is not tracked.) -/
+theorem helpers_pure :
+    Gen.C20.pureHelpers = ["generate_matching_statistics", "save_matching_statistics",
+      "generate_thickness_volume", "save_thickness_volume"] ∧
+    Gen.C20.helperWrites = [] :=
+  ⟨rfl, rfl⟩
+
+/-- **the other entry points** (`run_full_pipeline`, the command line `main` / `parse_arguments`): defaults
+`max_thickness = 8.0`, `max_angle = 3.0`, `direction = '1to2'`, GPU unless `--use_cpu`; each of them hands ITS
+`max_thickness`, `max_angle`, `direction`, `use_gpu`, `num_cpu_threads` to the parameter of the same name of
+`measure_membrane_thickness` (no positional arguments, nothing swapped, nothing dropped). Anchored only — these two are
+never executed by the correspondence run (they need a full segmentation). -/
+theorem callers_documented :
+    Gen.C20.callers = [
+      "run_full_pipeline(max_thickness=8.0, max_angle=3.0, direction='1to2', use_gpu=True, num_cpu_threads=None)",
+      "run_full_pipeline -> measure_membrane_thickness: max_thickness=max_thickness, max_angle=max_angle, direction=direction, use_gpu=use_gpu, num_cpu_threads=num_cpu_threads",
+      "main -> run_full_pipeline: max_thickness=parse_arguments().max_thickness, max_angle=parse_arguments().max_angle, direction=parse_arguments().direction, use_gpu=not parse_arguments().use_cpu, num_cpu_threads=parse_arguments().cpu_threads",
+      "main -> measure_membrane_thickness: max_thickness=parse_arguments().max_thickness, max_angle=parse_arguments().max_angle, direction=parse_arguments().direction, use_gpu=not parse_arguments().use_cpu, num_cpu_threads=parse_arguments().cpu_threads",
+      "option --max_thickness: type=float, default=8.0",
+      "option --max_angle: type=float, default=3.0",
+      "option --direction: choices=['1to2', '2to1'], default='1to2'",
+      "option --use_cpu: action='store_true'",
+      "option --cpu_threads: type=int"] :=
+  rfl
+
 /-- **logging is optional**: the helper every pruned `log_msg(...)` statement of `measure_thickness_cpu`,
 `measure_thickness_gpu` and `read_segmentation` calls falls back to `print` when no logger is given (`a9` / `a8` / `a1` is
 the `logger` parameter, `x0` the message) — with the default `logger=None` nothing dereferences `None`. -/
@@ -687,7 +718,7 @@ theorem within_range_and_forward {sqrt : α → α} {i : Input α} {strict : Boo
   · exact le_of_lt hball
   · exact hball
 
-/-- **Cone.** `c`, `t` are the cosine and the tangent of `max_angle` (abstractly: `c > 0`,
+/-- **Cone (exactly unit normals; for float normals with `n·n ≈ 1` see `in_cone_approx`).** `c`, `t` are the cosine and the tangent of `max_angle` (abstractly: `c > 0`,
 `c²(1+t²) = 1`), `i.tanT = t`. For a unit source normal every reported pair satisfies
 `proj > c · dist`: the angle between (target − source) and the normal is smaller than `max_angle`. -/
 theorem in_cone {sqrt : α → α} {i : Input α} {strict : Bool} {out : List (Nat × Nat)}
@@ -705,6 +736,34 @@ theorem in_cone {sqrt : α → α} {i : Input α} {strict : Bool} {out : List (N
     have h3 := mul_self_nonneg (b.p - a.p).z
     linarith
   exact (cone_iff_dist sqrt a.p b.p a.n c i.tanT hn hc hct (hsq0 _) (hsq _ hd2)).1 ⟨hfwd, hcone⟩
+
+/-- **Cone, for a normal that is only approximately of unit length** (what float data gives: `in_cone` above asks for
+`n·n = 1` EXACTLY, which noisy float normals do not satisfy — for them this is the applicable statement). If the source
+normal satisfies `n·n ≥ 1 − ε`, every reported pair satisfies `proj > 0` and `c²·dist² < proj²·(1 + c²·ε)` where
+`proj = (target − source)·n`: inside the cone up to a relative widening `c²·ε` of `proj²` (`ε = 0`: the exact cone of
+`cone_iff`). No hypothesis on the square root. -/
+theorem in_cone_approx {sqrt : α → α} {i : Input α} {strict : Bool} {out : List (Nat × Nat)}
+    (hS : Spec sqrt i strict out) (c ε : α) (hc : 0 < c) (hct : c * c * (1 + i.tanT * i.tanT) = 1)
+    (p : Nat × Nat) (hp : p ∈ out) :
+    ∃ a ∈ i.sources, ∃ b ∈ i.targets, a.idx = p.1 ∧ b.idx = p.2 ∧ 0 < proj a.p b.p a.n ∧
+      (1 - ε ≤ V3.dot a.n a.n →
+        c * c * d2 a.p b.p < proj a.p b.p a.n * proj a.p b.p a.n * (1 + c * c * ε)) := by
+  obtain ⟨a, ha, b, hb, e1, e2, _, hfwd, hcone⟩ := hS.admissible p hp
+  refine ⟨a, ha, b, hb, e1, e2, hfwd, fun hn => ?_⟩
+  have hm : (i.params strict).m = i.tanT * i.tanT := rfl
+  rw [hm, lat2_general] at hcone
+  have hP : 0 ≤ proj a.p b.p a.n * proj a.p b.p a.n := mul_self_nonneg _
+  have hc2 : 0 < c * c := mul_pos hc hc
+  have hle := mul_le_mul_of_nonneg_left (show 2 - V3.dot a.n a.n ≤ 1 + ε by linarith) hP
+  have h2 : d2 a.p b.p < i.tanT * i.tanT * proj a.p b.p a.n * proj a.p b.p a.n
+      + proj a.p b.p a.n * proj a.p b.p a.n * (1 + ε) := by linarith
+  have h3 := mul_lt_mul_of_pos_left h2 hc2
+  have e : c * c * (i.tanT * i.tanT * proj a.p b.p a.n * proj a.p b.p a.n
+      + proj a.p b.p a.n * proj a.p b.p a.n * (1 + ε))
+      = proj a.p b.p a.n * proj a.p b.p a.n * (1 + c * c * ε) := by
+    linear_combination (proj a.p b.p a.n * proj a.p b.p a.n) * hct
+  rw [e] at h3
+  exact h3
 
 /-- **Cone criterion of the admissibility test itself** (both directions): with multiplier `t²`, for
 a unit normal, accepted ⇔ `proj > 0 ∧ proj² > c²·dist²` — i.e. strictly inside the cone of half-angle
@@ -831,7 +890,7 @@ theorem direction_swap (sqrt : α → α) (i : Input α) (strict : Bool) :
 
 end spec
 
-/-- **Cone, over the reals.** With the real square root and `tanT = tan θ` for a half-angle
+/-- **Cone, over the reals** (hypothesis `n·n = 1` exact, as in `in_cone`; `in_cone_real_approx` drops it). With the real square root and `tanT = tan θ` for a half-angle
 `0 < θ < π/2` (`max_angle` in radians), every reported pair whose source normal has length 1 satisfies
 `cos θ · ‖target − source‖ < (target − source)·normal`: the angle between the connecting vector and
 the normal is smaller than `θ`. -/
@@ -841,6 +900,15 @@ theorem in_cone_real {i : Input ℝ} {strict : Bool} {out : List (Nat × Nat)} (
       (V3.dot a.n a.n = 1 → Real.cos θ * dist Real.sqrt a.p b.p < proj a.p b.p a.n) := by
   obtain ⟨hc, hct⟩ := real_angle θ h0 h1
   exact in_cone hS (Real.cos θ) hc (by rw [htan]; exact hct) real_sqrt_nonneg real_sqrt_mul_self p hp
+
+/-- the real instance of `in_cone_approx`: `tanT = tan θ`, `0 < θ < π/2`, normal with `n·n ≥ 1 − ε` -/
+theorem in_cone_real_approx {i : Input ℝ} {strict : Bool} {out : List (Nat × Nat)} (θ ε : ℝ) (h0 : 0 < θ)
+    (h1 : θ < Real.pi / 2) (htan : i.tanT = Real.tan θ) (hS : Spec Real.sqrt i strict out) (p : Nat × Nat) (hp : p ∈ out) :
+    ∃ a ∈ i.sources, ∃ b ∈ i.targets, a.idx = p.1 ∧ b.idx = p.2 ∧ 0 < proj a.p b.p a.n ∧
+      (1 - ε ≤ V3.dot a.n a.n → Real.cos θ * Real.cos θ * d2 a.p b.p
+        < proj a.p b.p a.n * proj a.p b.p a.n * (1 + Real.cos θ * Real.cos θ * ε)) := by
+  obtain ⟨hc, hct⟩ := real_angle θ h0 h1
+  exact in_cone_approx hS (Real.cos θ) ε hc (by rw [htan]; exact hct) p hp
 
 /-! ### regression witness (defect D17, repaired by `fix:` df49b17) -/
 
@@ -863,6 +931,8 @@ theorem cone_counterexample :
 example : (rz (3/5 : Rat) (4/5)).Orth := rz_orth _ _ (by decide +kernel)
 /-- an abstract angle: `cos = 4/5`, `tan = 3/4` -/
 example : (0 : Rat) < 4/5 ∧ (4/5 : Rat) * (4/5) * (1 + (3/4) * (3/4)) = 1 := by decide +kernel
+/-- a normal that is NOT of unit length but within `ε = 1/100` (hypothesis of `in_cone_approx`) -/
+example : (1 : Rat) - 1/100 ≤ V3.dot (⟨3/5, 0, 399/500⟩ : V3 Rat) ⟨3/5, 0, 399/500⟩ := by decide +kernel
 /-- a unit normal that is not an axis -/
 example : V3.dot (⟨3/5, 0, 4/5⟩ : V3 Rat) ⟨3/5, 0, 4/5⟩ = 1 := by decide +kernel
 
